@@ -509,6 +509,12 @@ func TestC15(t *testing.T) {
 			ctx, _ := states[sn].CacheContext()
 			detail := c15ApplyFault(t, a, ctx, env, fault, sub)
 			tr.p("case %d env %s %s %s", ci, sn, fault, detail)
+			if strings.HasPrefix(fault, "counter-") {
+				// the vault counter was set directly through the keeper: no wired code path produces
+				// counter != number of open vaults, the state is UNREACHABLE.  The case only validates
+				// the model of the slice expression (model predicts panic <=> implementation panicked)
+				tr.p("fabricated counter")
+			}
 			for _, h := range c15Hooks {
 				v1 := h.name == "liquidation.BeginBlocker" || h.name == "auction.BeginBlocker"
 				if v1 && !strings.HasPrefix(sn, "p1v1") {
@@ -534,8 +540,12 @@ func TestC15(t *testing.T) {
 							failed = 1
 						}
 					}
-					tr.p("unitobs v2.surplusdebt %d %s %s %d %d %s", failed, o1.coll.Sub(o0.coll), o1.net.Sub(o0.net), int64(o1.locked)-int64(o0.locked),
-						int64(o1.auction)-int64(o0.auction), b2s(o1.active))
+					act := 0
+					if o1.active != o0.active {
+						act = 1
+					}
+					tr.p("unitobs v2.surplusdebt %d %s %s %d %d %d", failed, o1.coll.Sub(o0.coll), o1.net.Sub(o0.net), int64(o1.locked)-int64(o0.locked),
+						int64(o1.auction)-int64(o0.auction), act)
 				}
 				class := "ok"
 				if panicked {
